@@ -195,6 +195,14 @@ PIECES = [
     ("A9", '<a href=" /9?a=1&amp;b=&#x2F; ">t</a>', [" /9?a=1&amp;b=&#x2F; "]),
     ("A10", '<a href="">t</a>', [""]),
     ("A11", '<a href="/é\u00a0\u4e2d">t</a>', ["/é\u00a0\u4e2d"]),
+    # tags whose NAME merely starts with 'a' are no anchors
+    ("N1", '<abbr href="/n1">t</abbr>', []),
+    ("N2", '<article href=/n2 class=c>t</article>', []),
+    ("N3", "<aside data-x='1' href='/n3'>", []),
+    # text that looks like an href attribute INSIDE the value of another attribute, after and before the real one; a '>' inside a quoted value
+    ("V1", '<a href="/v1" title="see href=/no">t</a>', ["/v1"]),
+    ("V2", '<a title="see href=/no" href="/v2">t</a>', ["/v2"]),
+    ("V3", '<a title="a>b" href="/v3">t</a>', ["/v3"]),
     ("A12", "<a href=/12\u00a0z>t</a>", None),
     ("A13", '<a\u2003href="/13">t</a>', None),
     ("S1", "<script>var s='<a href=\"/s1\">x</a>';</script>", []),
